@@ -883,6 +883,75 @@ theorem C05.leaf_typed (cj : K → K) (I : K) (l : Leaf K)
 
 end
 
+/-! ### when is an adjoint exposed -/
+
+section
+variable {K : Type} [Field K] [DecidableEq K]
+
+/-- the tree contains no non-linear leaf -/
+def OdlModel.Adjoint.Impl.linearTree : Impl K → Prop
+  | .leaf (.nonlin _ _ _) => False
+  | .leaf _ => True
+  | .sum a b => a.linearTree ∧ b.linearTree
+  | .comp a b => a.linearTree ∧ b.linearTree
+  | .lscal a _ => a.linearTree
+  | .rscal a _ => a.linearTree
+  | .lvec a _ => a.linearTree
+  | .rvec a _ => a.linearTree
+  | .flvec f _ _ _ => f.linearTree
+  | .pnil _ _ _ => True
+  | .pcons _ _ a rest => a.linearTree ∧ rest.linearTree
+
+/-- `adj_exposed`: the model's `.adjoint` is defined (the code returns an operator) EXACTLY for
+the trees without a non-linear operand, for every expression class and every depth; with one
+non-linear leaf anywhere it is `none` (the code raises `OpNotImplementedError`).  The `noadj`
+answers of the driver are this function; the harness compares them with the exception of the
+real code (non-linear operands in every expression class and in random trees). -/
+theorem C05.adj_exposed (cj : K → K) (I : K) (t : Impl K) :
+    (t.adj cj I).isSome = true ↔ t.linearTree := by
+  induction t with
+  | leaf l => cases l <;> simp [Impl.adj, Leaf.adj, Impl.linearTree] <;> split_ifs <;> simp
+  | sum a b iha ihb =>
+    simp only [Impl.adj, Impl.linearTree, ← iha, ← ihb]
+    cases a.adj cj I <;> cases b.adj cj I <;> simp
+  | comp a b iha ihb =>
+    simp only [Impl.adj, Impl.linearTree, ← iha, ← ihb]
+    cases a.adj cj I <;> cases b.adj cj I <;> simp
+  | lscal a s iha =>
+    simp only [Impl.adj, Impl.linearTree, ← iha]
+    cases a.adj cj I <;> simp
+  | rscal a s iha =>
+    simp only [Impl.adj, Impl.linearTree, ← iha]
+    cases a.adj cj I <;> simp
+  | lvec a v iha =>
+    simp only [Impl.adj, Impl.linearTree, ← iha]
+    cases a.adj cj I <;> simp
+  | rvec a v iha =>
+    simp only [Impl.adj, Impl.linearTree, ← iha]
+    cases a.adj cj I <;> simp
+  | flvec f V F v ihf =>
+    simp only [Impl.adj, Impl.linearTree, ← ihf]
+    cases f.adj cj I <;> simp
+  | pnil k d r => simp [Impl.adj, Impl.linearTree]
+  | pcons r c a rest iha ihr =>
+    simp only [Impl.adj, Impl.linearTree, ← iha, ← ihr]
+    cases a.adj cj I <;> cases rest.adj cj I <;> simp
+
+/-- Non-vacuity of both directions on concrete trees over ℚ: a tree with a non-linear operand
+deep inside has no adjoint, the same tree without it has one. -/
+example :
+    let S : Space ℚ := ⟨1, fun _ => 2, fun _ _ => 1, true⟩
+    let lin : Impl ℚ := .sum (.lscal (.leaf (.scaling S 2)) 3) (.leaf (.zero S S))
+    let bad : Impl ℚ := .sum (.lscal (.comp (.leaf (.scaling S 2)) (.leaf (.nonlin S S id))) 3)
+      (.leaf (.zero S S))
+    (lin.adj (RingHom.id ℚ) 0).isSome = true ∧ bad.adj (RingHom.id ℚ) 0 = none := by
+  intro S lin bad
+  refine ⟨(C05.adj_exposed _ 0 lin).mpr (by simp [lin, Impl.linearTree]), ?_⟩
+  have h := (C05.adj_exposed (RingHom.id ℚ) 0 bad).not.mpr (by simp [bad, Impl.linearTree])
+  simpa using h
+
+end
+
 /-! ### adjoint of the adjoint -/
 
 section
